@@ -647,7 +647,7 @@ def programs(tier: str) -> list[Program]:
                 ps.append(Program(f"{pname}/{backend}/network_store/crash_after_tick_{k:02d}",
                                   {"program": pname, "backend": backend, "crash_at": k, "network": True},
                                   (lambda ex, pname=pname, backend=backend, k=k: execute(ex, pname, backend, k, network=True)),
-                                  max_dev=(2 if q else 4)))
+                                  max_dev=(4 if q else 5)))
     return ps
 
 
